@@ -203,6 +203,8 @@ pub struct Exec {
     rng: SplitMix,
     script: Option<(Vec<u8>, usize, Vec<u64>, usize, bool)>,
     pub ts: Vec<u8>,
+    /// consecutive fabricated (tolerant-replay) spurious wake-ups since the last ordinary choice
+    tolerant_spurious_streak: u32,
     pub ds: Vec<u64>,
     pub steps: u64,
     pub events: u64,
@@ -298,6 +300,7 @@ impl Exec {
             rng,
             script,
             ts: Vec::new(),
+            tolerant_spurious_streak: 0,
             ds: Vec::new(),
             steps: 0,
             events: 0,
@@ -498,14 +501,21 @@ impl Exec {
             if let Some(w) = pick {
                 if cands.contains(&w) {
                     chosen = Some(w);
+                    self.tolerant_spurious_streak = 0;
                 } else if w < self.tasks.len()
                     && self.tasks[w].state == TState::Parked
                     && !self.tasks[w].token
+                    // an exact replay takes every recorded spurious wake-up; a tolerant one (the shrinker trying an
+                    // edited schedule) must not turn "continue the current task" into an endless series of spurious
+                    // wake-ups of a parked task, which would starve everybody else and fake a step-bound hang: the
+                    // fault must have been enabled in the run and at most two may follow each other
+                    && (strict || (self.cfg.p_spurious_park > 0 && self.tolerant_spurious_streak < 2))
                 {
                     // recorded spurious wake-up
                     self.tasks[w].state = TState::Runnable;
                     self.tasks[w].last_park_spurious = true;
                     self.stats.spurious_parks += 1;
+                    self.tolerant_spurious_streak += 1;
                     chosen = Some(w);
                 }
             }
@@ -733,6 +743,7 @@ pub fn current() -> usize {
 }
 
 pub fn park() {
+    dbg("park");
     let Some(e) = ex() else { return };
     switch(false);
     let cur = e.current;
@@ -776,6 +787,7 @@ pub fn park_steps(k: u64) -> bool {
 }
 
 pub fn unpark(t: usize) {
+    dbg(&format!("unpark t{}", t));
     let Some(e) = ex() else { return };
     switch(false);
     let cur = e.current;
@@ -818,7 +830,18 @@ fn idle_step(e: &mut Exec) -> u64 {
     200u64 << shift
 }
 
+fn dbg(what: &str) {
+    if std::env::var_os("KSIM_TRACE").is_some() {
+        if let Some(e) = ex() {
+            if e.steps % 1000 < 40 || e.steps < 300 {
+                eprintln!("[{}] t{} {}", e.steps, e.current, what);
+            }
+        }
+    }
+}
+
 pub fn yield_now() {
+    dbg("yield");
     if let Some(e) = ex() {
         let d = idle_step(e);
         e.clock_ns += d;
@@ -827,6 +850,7 @@ pub fn yield_now() {
 }
 
 pub fn sleep_ns(ns: u64) {
+    dbg("sleep");
     if let Some(e) = ex() {
         let d = idle_step(e);
         e.clock_ns += ns.max(1_000).max(d);
